@@ -1,6 +1,7 @@
 From Coq Require Import extraction.Extraction extraction.ExtrOcamlBasic.
-From TU Require Import Base C19_Model.
+From TU Require Import Base C19_Model C19_Lit.
 Definition run := run_C19.
 Definition check := check_C19.
-Definition agree (inp m i : val) : bool := agree_C19 inp m i.
+(* relational check of the table (agree_C19) and the literal replay of the observed statistics (trace_ok) *)
+Definition agree (inp m i : val) : bool := agree_lit inp m i.
 Extraction "model.ml" run check agree.
